@@ -20,6 +20,8 @@ def t2_translate(c): X, Y, Z, T = c; return [(-X) % Q, (-Y) % Q, Z, T]
 def rescale(c, l): return [v * l % Q for v in c]
 def neg_pt(c): X, Y, Z, T = c; return [(-X) % Q, Y, Z, (-T) % Q]
 
+INVALID_SEEN = []     # (build, op line, output): invalid representatives handed out by the API while pools were built (reported by run_property)
+
 class Pool:
     """valid elements of one build with their provenance, obtained through the real API"""
     def __init__(self, build, rng, n_rand=12):
@@ -31,9 +33,13 @@ class Pool:
         lines += ['el.dec %s' % hexb(s) for s in ss]
         out = harness.run_script(build, lines)
         self.base = []; self.encodable = []
+        def note(l, o, c):
+            if len(c) != 4 or not pyref.valid(c): INVALID_SEEN.append((build, l, o))
         for l, o in zip(lines, out):
-            if o.startswith('OK '): self.base.append(parseE(o[3:])); self.encodable.append(int.from_bytes(bytes.fromhex(l.split()[1]), 'little'))
-            elif ',' in o and not o.startswith('ERR'): self.base.append(parseE(o))
+            if o.startswith('OK '):
+                c = parseE(o[3:]); note(l, o, c); self.base.append(c); self.encodable.append(int.from_bytes(bytes.fromhex(l.split()[1]), 'little'))
+            elif ',' in o and not o.startswith('ERR'): c = parseE(o); note(l, o, c); self.base.append(c)
+            elif o.startswith('PANIC'): INVALID_SEEN.append((build, l, o))
         # derived: sums, doubles, scalar multiples (Z != 1), through the API
         lines = []
         b = self.base
@@ -43,6 +49,9 @@ class Pool:
             lines.append('el.smul.Ef %s %x' % (E(b[i]), [R - 1, 2, (R + 1) // 2, 5, gen.rand_field(rng, R)][i % 5]))
         out = harness.run_script(build, lines)
         self.derived = [parseE(o) for o in out if ',' in o]
+        for l, o in zip(lines, out):
+            if ',' in o: note(l, o, parseE(o))
+            elif o.startswith('PANIC'): INVALID_SEEN.append((build, l, o))
         # only valid representatives may seed further operations (an implementation that hands out an invalid one is reported by the
         # property predicates, which see the same operations; the generators must not crash on it)
         self.invalid = [c for c in self.base + self.derived if len(c) != 4 or not pyref.valid(c)]
@@ -142,6 +151,15 @@ def run_property(ctx, module, vo, files, build_scripts, search, what):
     except RuntimeError as e:
         ctx.violation('harness or model failed to build/run: %s' % str(e)[:300], {'stage': 'build', 'log': str(e)[-4000:]}, {'stage': 'build'}, found_input=False)
         mism = []
+    # values that the public API itself handed out while the operand pools were built (constants, decoded strings, hash-to-group
+    # outputs, sums, doubles, scalar multiples of those) must be valid elements: the properties quantify over them
+    seen = set()
+    for b, l, o in INVALID_SEEN:
+        if (b, l) in seen: continue
+        seen.add((b, l))
+        ctx.violation('%s: the API call %s returns %s, which is not a valid element (build %s)' % (what.split(' is no longer')[0], l[:100], o[:100], b),
+                      {'stage': 'search', 'build': b, 'script': [l], 'output': [o]}, {'class': 'invalid_operand', 'build': b, 'op': l.split()[0]}, found_input=True)
+        if len(seen) >= 4: break
     ctx.cov['rule'] = ('structured inputs named by the property quantifier (boundary field values, near-miss strings, both coset '
                        'representatives, projective rescalings, identity representatives, P/-P/P+P pairs) plus seeded random fill; a case is '
                        'non-trivial when some operand is not 0/1/identity; distinct by (build, op line)')
